@@ -29,6 +29,7 @@ inductive Shape where
   | bool
   | hole                     -- interface{}: any JSON
   | hmap                     -- map[string]interface{}: a JSON object or null, anything else is an error
+  | dur                      -- api.DurationConfig: a time.Duration written as its String()
   | struct (fs : Fields)
   | slice (e : Shape)
   | map (e : Shape)
@@ -45,6 +46,7 @@ inductive CVal where
   | num (lit : String)
   | bool (b : Bool)
   | hole (j : Json)
+  | dur (ns : Int)
   | struct (vs : List CVal)
   | slice (isNil : Bool) (vs : List CVal)
   | map (isNil : Bool) (kvs : List (String × CVal))
@@ -58,6 +60,7 @@ def Shape.beq : Shape → Shape → Bool
   | .bool, .bool => true
   | .hole, .hole => true
   | .hmap, .hmap => true
+  | .dur, .dur => true
   | .struct a, .struct b => Fields.beq a b
   | .slice a, .slice b => Shape.beq a b
   | .map a, .map b => Shape.beq a b
@@ -76,6 +79,7 @@ def CVal.beq : CVal → CVal → Bool
   | .num a, .num b => a == b
   | .bool a, .bool b => a == b
   | .hole a, .hole b => Json.beq a b
+  | .dur a, .dur b => a == b
   | .struct a, .struct b => CVal.beqL a b
   | .slice n a, .slice m b => n == m && CVal.beqL a b
   | .map n a, .map m b => n == m && CVal.beqM a b
@@ -106,6 +110,7 @@ def zero : Shape → CVal
   | .bool => .bool false
   | .hole => .hole .null
   | .hmap => .hole .null
+  | .dur => .dur 0
   | .struct fs => .struct (zeroF fs)
   | .slice _ => .slice true []
   | .map _ => .map true []
@@ -121,6 +126,7 @@ def isEmpty : CVal → Bool
   | .num l => l == "0"
   | .bool b => !b
   | .hole j => (match j with | .null => true | .obj [] => true | _ => false)
+  | .dur _ => false
   | .struct _ => false
   | .slice _ vs => vs.isEmpty
   | .map _ kvs => kvs.isEmpty
@@ -128,6 +134,7 @@ def isEmpty : CVal → Bool
 
 /-- a pointer round-trips only when its target never encodes to `null` (pointer to scalar or struct, as in v2) -/
 def ptrElemOK : Shape → Bool
+  | .dur => true
   | .str => true
   | .num => true
   | .bool => true
@@ -161,6 +168,15 @@ def normM (f : CVal → CVal) : List (String × CVal) → List (String × CVal)
   | [] => []
   | (k, v) :: r => (k, f v) :: normM f r
 
+/-- `DurationConfig.UnmarshalJSON`: `time.ParseDuration(strings.Trim(string(b), "\""))` on the raw member text — for a
+JSON string written without escapes that is its content (a content with quotes or escapes fails to parse either way), for
+a number its literal; `null`, booleans and containers fail -/
+def durU (j : Json) : Option Int :=
+  match j with
+  | .str s => parseDur s
+  | .num l => parseDur l
+  | _ => none
+
 def isObjOrNull : Json → Bool
   | .null => true
   | .obj _ => true
@@ -173,6 +189,7 @@ def wt : Shape → CVal → Bool
   | .bool, .bool _ => true
   | .hole, .hole _ => true
   | .hmap, .hole j => isObjOrNull j
+  | .dur, .dur d => decide (-(two63 : Int) ≤ d) && decide (d < (two63 : Int))
   | .struct fs, .struct vs => wtF fs vs
   | .slice e, .slice n vs => (!n || vs.isEmpty) && wtL (wt e) vs
   | .map e, .map n kvs => (!n || kvs.isEmpty) && wtM (wt e) kvs
@@ -192,6 +209,7 @@ def encode : Shape → CVal → Json
   | .bool, .bool b => .bool b
   | .hole, .hole j => j
   | .hmap, .hole j => j
+  | .dur, .dur d => .str (fmtDur d)
   | .struct fs, .struct vs => .obj (encodeF fs vs)
   | .slice e, .slice n vs => if n then .null else .arr (encodeL (encode e) vs)
   | .map e, .map n kvs => if n then .null else .obj (encodeM (encode e) kvs)
@@ -213,6 +231,7 @@ def decode : Shape → Json → Option CVal
   | .bool, .null => some (.bool false)
   | .hole, j => some (.hole j)
   | .hmap, j => if isObjOrNull j then some (.hole j) else none
+  | .dur, j => (durU j).map .dur
   | .struct fs, .obj ms => (decodeF fs ms).map .struct
   | .struct fs, .null => some (.struct (zeroF fs))
   | .slice e, .arr xs => (decodeL (decode e) xs).map (.slice false)
@@ -274,7 +293,7 @@ def expandTy (g : Graph) : Nat → GoTy → Option Shape
   | _ + 1, .num => some .num
   | _ + 1, .bool => some .bool
   | _ + 1, .hole k => if k == "json.RawMessage" then none else if k == "map[string]interface{}" then some .hmap else some .hole
-  | _ + 1, .ext _ => none
+  | _ + 1, .ext n => if n == "api.DurationConfig" then some .dur else none
   | n + 1, .named s =>
     match g.find s with
     | some d => if d.customMarshal || d.customUnmarshal then none else (expandFs g n d.fields).map .struct
@@ -302,7 +321,7 @@ def looseTy (g : Graph) : Nat → GoTy → Option Shape
   | _ + 1, .num => some .num
   | _ + 1, .bool => some .bool
   | _ + 1, .hole k => if k == "map[string]interface{}" then some .hmap else some .hole
-  | _ + 1, .ext _ => some .hole
+  | _ + 1, .ext n => if n == "api.DurationConfig" then some .dur else some .hole
   | n + 1, .named s =>
     match g.find s with
     | some d => if d.customMarshal || d.customUnmarshal then some .hole else (looseFs g n d.fields).map .struct
@@ -405,15 +424,6 @@ def hostM (x : HostV) : Json :=
     | cfg => cfg)
 
 /-! ## custom pair 3: `RetryPolicy` and `api.DurationConfig` (route.go, mosn.io/api types.go, package time) -/
-
-/-- `DurationConfig.UnmarshalJSON`: `time.ParseDuration(strings.Trim(string(b), "\""))` on the raw member text — for a
-JSON string written without escapes that is its content (a content with quotes or escapes fails to parse either way), for
-a number its literal; `null`, booleans and containers fail -/
-def durU (j : Json) : Option Int :=
-  match j with
-  | .str s => parseDur s
-  | .num l => parseDur l
-  | _ => none
 
 /-- `RetryPolicy` in memory (`RetryTimeout` always equals the config's duration after `UnmarshalJSON`) -/
 structure RetryV where
